@@ -886,6 +886,7 @@ def scen_compact(ctx, version, nsteps, out, big=False, perms=False):
         pk = dict(directory_permissions='755', file_permissions='644') if perms else {}
         cache = cls(cdir, **pk)
         maxlen = 0
+        tainted = False
         ctx.count('%s:permissions-configured=%s' % (tag, bool(perms)))
         for step in range(nsteps):
             nb = rng.choice([1, 1, 2, 3])
@@ -898,14 +899,21 @@ def scen_compact(ctx, version, nsteps, out, big=False, perms=False):
                 batch.append((c, bytes(rng.randrange(256) for _ in range(n))))
             if len(batch) > 1 and any(c == foreign for c, _ in batch) is False and rng.random() < 0.2:
                 batch[0] = (batch[-1][0], batch[0][1])       # the same address twice in one batch
-            if not big and step == nsteps - 2:
-                # directed: an address that has content ...
-                batch = [(coords[0], bytes(rng.randrange(256) for _ in range(3)))]
+            directed_crash = False
+            if not big and step == nsteps - 3:
+                # directed: two addresses get content ...
+                batch = [(coords[0], bytes(rng.randrange(256) for _ in range(3))),
+                         (coords[1], bytes(rng.randrange(256) for _ in range(4)))]
+            elif not big and step == nsteps - 2:
+                # ... the first is stored again and the process is killed right after the index entry reached the file
+                # (the entry is the commit point; the header is written after it): a legitimate prior state ...
+                batch = [(coords[0], bytes(rng.randrange(256) for _ in range(5)))]
+                directed_crash = True
             elif not big and step == nsteps - 1:
-                # ... is replaced by the largest tile of the bundle so far (the header's max record size is updated
-                # after the index entry)
-                batch = [(coords[0], bytes(rng.randrange(256) for _ in range(maxlen + 1 + rng.randrange(4))))]
-                ctx.count('%s:directed-largest-tile-over-existing' % tag)
+                # ... in which the second address is replaced by the largest tile of the bundle so far (the header's max
+                # record size is updated after the index entry)
+                batch = [(coords[1], bytes(rng.randrange(256) for _ in range(maxlen + 1 + rng.randrange(4))))]
+                ctx.count('%s:directed-largest-tile-over-existing-after-crash' % tag)
             maxlen = max([maxlen] + [len(d) for _, d in batch])
             pre_dir = os.path.join(root, 'pre')
             env.fstrace.copy_tree(cdir, pre_dir)
@@ -1026,7 +1034,30 @@ def scen_compact(ctx, version, nsteps, out, big=False, perms=False):
             if single_bundle and init_shape not in ([], ['create', 'write', 'rename'], ['create', 'write', 'rename'] * 2):
                 ctx.problem('correspondence', '%s: initialisation is not write_atomic shaped: %r' % (tag, init_shape), rep)
             # ---- correspondence case for the in-place part
-            if bundle_ops and sum(len(o[2]) for o in bundle_ops) + sum(len(w[-1]) for w in hist) > 40000:
+            # shape of the raw in-place writes (cheap pre-check of what raw_ok accepts; anything else is reported here
+            # and not handed to Coq, whose readers may be walked through arbitrary garbage by such a trace)
+            bad_shape = None
+            L = len(pre_snap[dat_rel][1]) if dat_rel in pre_snap else (131136 if version == 2 else 65596)
+            for kind, off, dd in bundle_ops:
+                n = len(dd)
+                if kind == 'D' and off == L:
+                    L += n
+                elif kind == 'D' and off + n <= (64 if version == 2 else 60):
+                    pass
+                elif version == 2 and kind == 'D' and 64 <= off and off + n <= 131136 and (off - 64) % 8 == 0 and n == 8:
+                    pass
+                elif version == 1 and kind == 'I' and 16 <= off and off + n <= 81936 and (off - 16) % 5 == 0 and n % 5 == 0:
+                    pass
+                else:
+                    bad_shape = (kind, off, n, L)
+                    break
+            if bad_shape is not None:
+                ctx.problem('correspondence', '%s: raw write %r (file, offset, length, file length) is neither an append nor a '
+                            'header rewrite nor whole index entries' % (tag, bad_shape), rep)
+                tainted = True
+            elif tainted:
+                ctx.count('%s:store-after-ill-shaped-trace(oracle only)' % tag)
+            elif bundle_ops and sum(len(o[2]) for o in bundle_ops) + sum(len(w[-1]) for w in hist) > 40000:
                 # not the shape of any modelled in-place write (records of this stream are below 9 KB): say so instead
                 # of handing Coq a literal of that size
                 ctx.problem('correspondence', '%s: in-place raw writes of %d bytes (this store and its history) on an existing bundle file' % (
@@ -1053,13 +1084,14 @@ def scen_compact(ctx, version, nsteps, out, big=False, perms=False):
             # history of the bundle under observation; sometimes the history continues from a crash state of this
             # store (a legitimate prior cache content for the next store), preferably right after an index write
             applied = list(bundle_ops)
-            if raw and rng.random() < 0.35:
+            if raw and (directed_crash or (rng.random() < 0.35 and not (not big and step >= nsteps - 3))):
                 k = rng.randrange(len(raw) + 1)
                 idxs = [i + 1 for i, o in enumerate(raw) if o[0] == 'write' and o[1] in (dat_rel, idx_rel) and is_index_write(o)]
-                if idxs and rng.random() < 0.5:
-                    k = rng.choice(idxs)
+                if idxs and (directed_crash or rng.random() < 0.5):
+                    k = idxs[-1] if directed_crash else rng.choice(idxs)
                 cut = None
-                if k < len(raw) and raw[k][0] == 'write' and len(raw[k][3]) > 1 and not is_index_write(raw[k]):
+                if not directed_crash and k < len(raw) and raw[k][0] == 'write' and len(raw[k][3]) > 1 \
+                        and not is_index_write(raw[k]):
                     cut = rng.randrange(1, len(raw[k][3]))
                 env.fstrace.copy_tree(pre_dir, cdir)
                 env.fstrace.replay(raw[:k], cdir)
